@@ -496,7 +496,7 @@ func runC04(rc *runCtx, ev *evidence) (int, bool) {
 		{modPath + "/cmd/gocritic", "checkFile", "program"},
 		{modPath + "/checkers/analyzer", "runAnalyzer", ""},
 	}
-	dir := filepath.Join(verifDir, "replays", "C04")
+	dir := filepath.Join(outDir, "replays", "C04")
 	os.MkdirAll(dir, 0o755)
 	totalPairs, totalEvents := 0, 0
 	var solverTime time.Duration
